@@ -364,6 +364,9 @@ func (c *Ctx) foundWitnessAt(at ssa.Instruction, id ssa.Value) (string, bool) {
 			if !eng.EdgeDominates(b, k, at.Block()) {
 				continue
 			}
+			if v, pol, ok := eng.CondTruth(b, k); ok && pol && c.foundBool(v, id, 0) {
+				return "true result of a finder for this id at " + c.P.InstrPos(eng.IfOf(b)), true
+			}
 			if idEqualityEdge(b, k, id) && c.nonExhaustiveSelection(b, k, id) == "" {
 				return "id-equality branch at " + c.P.InstrPos(eng.IfOf(b)), true
 			}
@@ -383,8 +386,56 @@ func (c *Ctx) foundWitnessAt(at ssa.Instruction, id ssa.Value) (string, bool) {
 	return "", false
 }
 
+// foundBool: v is the boolean result of a module helper that receives the id and returns
+// true only where a found-witness for that id dominates (markSeen(id) bool).
+func (c *Ctx) foundBool(v ssa.Value, id ssa.Value, depth int) bool {
+	if depth > 2 {
+		return false
+	}
+	call, ok := v.(*ssa.Call)
+	if !ok {
+		return false
+	}
+	g := eng.StaticCallee(call.Common())
+	if g == nil || !eng.InModule(g) || len(g.Blocks) == 0 || g.Signature.Results().Len() != 1 {
+		return false
+	}
+	if b, isB := g.Signature.Results().At(0).Type().Underlying().(*types.Basic); !isB || b.Kind() != types.Bool {
+		return false
+	}
+	var gid ssa.Value
+	for i, a := range call.Call.Args {
+		if derivesFrom(a, id, 0) && i < len(g.Params) {
+			gid = g.Params[i]
+		}
+	}
+	if gid == nil {
+		return false
+	}
+	okAll, nTrue := true, 0
+	eng.EachInstr(g, func(in ssa.Instruction) {
+		ret, isRet := in.(*ssa.Return)
+		if !isRet || eng.IsRecoverBlock(ret.Block()) {
+			return
+		}
+		res := eng.ReturnResults(ret)
+		if bv, isC := eng.ConstBool(res[0]); isC && !bv {
+			return
+		}
+		nTrue++
+		if _, ok := c.foundWitnessDepth(ret, gid, depth+1); !ok {
+			okAll = false
+		}
+	})
+	return okAll && nTrue > 0
+}
+
 // foundWitness: ret is dominated by an id-equality edge or by `p != nil` with foundPtr(p).
 func (c *Ctx) foundWitness(ret *ssa.Return, id ssa.Value) (string, bool) {
+	return c.foundWitnessDepth(ret, id, 0)
+}
+
+func (c *Ctx) foundWitnessDepth(ret *ssa.Return, id ssa.Value, depth int) (string, bool) {
 	fn := ret.Parent()
 	for _, b := range fn.Blocks {
 		if len(b.Succs) != 2 {
@@ -393,6 +444,9 @@ func (c *Ctx) foundWitness(ret *ssa.Return, id ssa.Value) (string, bool) {
 		for k := 0; k < 2; k++ {
 			if !eng.EdgeDominates(b, k, ret.Block()) {
 				continue
+			}
+			if v, pol, ok := eng.CondTruth(b, k); ok && pol && c.foundBool(v, id, depth) {
+				return "true result of a finder for this id at " + c.P.InstrPos(eng.IfOf(b)), true
 			}
 			if idEqualityEdge(b, k, id) {
 				if why := c.nonExhaustiveSelection(b, k, id); why != "" {
@@ -610,8 +664,8 @@ func (c *Ctx) c07Mem(sm *storeModel) {
 	fFirst := p.OptField("pkg/storage/mem", "mbox", "first") // eviction cursor, if the store keeps one
 	fMsgs := p.Field("pkg/storage/mem", "mbox", "messages")
 	fID := p.Field("pkg/storage/mem", "Message", "id")
-	withMailbox := p.Method("pkg/storage/mem", "Store", "withMailbox")
-	if fLast == nil || fMsgs == nil || fID == nil || withMailbox == nil {
+	withMailbox := p.OptMethod("pkg/storage/mem", "Store", "withMailbox")
+	if fLast == nil || fMsgs == nil || fID == nil {
 		return
 	}
 	fns := pkgFuncs(p, "pkg/storage/mem")
